@@ -7,6 +7,7 @@ ALL_FAULTS = {"dns", "refused", "reqwrite", "recv_error", "recv_boom", "wait_rai
 REACT_AT = {"connecting", "connected", "ready", "poll", "text", "ping", "closing", "protocol_error"}
 IDLE = {"poll": 5, "ping_rate": 0, "ping_timeout": 0, "close_timeout": 0, "auto_pong": True}
 TIMERS = {"poll": 5, "ping_rate": 5, "ping_timeout": 5, "close_timeout": 5, "auto_pong": True}
+PINGTO = {"poll": 5, "ping_rate": 5, "ping_timeout": 5, "close_timeout": 0, "auto_pong": True}
 CLOSEONLY = {"poll": 5, "ping_rate": 0, "ping_timeout": 0, "close_timeout": 5, "auto_pong": True}
 ANCHORS = ['connect_fail', 'connected', 'ready', 'rejected', 'poll', 'text', 'binary', 'ping', 'closing', 'closed',
            'protocol_error', 'unresponsive', 'disconnected']
@@ -22,6 +23,11 @@ def instances(tier):
         {"label": "timers", "cfg": TIMERS,
          "consts": dict(HttpItems='HttpOk', Items='ItemsQ', Cfg='CfgTimers', MaxItems=1 if q else 2, ChunkMax=1,
                         MaxIdle=3 if q else 4, Dts={0, 5}, Faults={"recv_error"}, Reacts={"none", "close"},
+                        ReactAt={"ready", "poll", "text"}, MaxReacts=1)},
+        # no close time-out: after close() only the ping time-out can end a connection to a silent server
+        {"label": "ping-timeout-without-close-timeout", "cfg": PINGTO,
+         "consts": dict(HttpItems='HttpOk', Items='ItemsQ', Cfg='CfgPingTimeoutOnly', MaxItems=1, ChunkMax=1,
+                        MaxIdle=3 if q else 4, Dts={0, 5}, Faults=set(), Reacts={"none", "close", "send"},
                         ReactAt={"ready", "poll", "text"}, MaxReacts=1)},
         {"label": "close-timeout-only", "cfg": CLOSEONLY,
          "consts": dict(HttpItems='HttpOk', Items='ItemsQ', Cfg='CfgCloseOnly', MaxItems=1 if q else 2, ChunkMax=1,
